@@ -120,8 +120,12 @@ func genBed(rng *rand.Rand) Rec {
 	case 3, 4:
 		rgb = []int{rng.Intn(256), rng.Intn(256), rng.Intn(256)}
 	}
+	ts, te := coord(rng), coord(rng)
+	if rng.Intn(4) == 0 {
+		ts, te = 0, 0 // both thick fields genuinely zero
+	}
 	return Rec{"chrom": ints(field(rng)), "start": coord(rng), "end": coord(rng), "name": ints(field(rng)),
-		"score": coord(rng), "strand": int("+-."[rng.Intn(3)]), "thickStart": coord(rng), "thickEnd": coord(rng),
+		"score": coord(rng), "strand": int("+-."[rng.Intn(3)]), "thickStart": ts, "thickEnd": te,
 		"rgb": rgb, "blockSizes": sizes, "blockStarts": starts}
 }
 
